@@ -56,6 +56,24 @@ func c08Septets(c *fw.Case, s []byte, class string) {
 		c.Failf("pack-layout", "Pack(%s) = %s, TS 23.038 bit stream = %s (n=%d)", hx(s), hx(packed), hx(want), len(s))
 		return
 	}
+	// a caller that packs one septet run in segments (parts of a long message) hands Pack windows of ONE array:
+	// each segment packs as it does alone, and what lies behind a window is still the caller's
+	if len(s) >= 2 {
+		k := len(s) / 2
+		if j := (len(s)-1)/8*8 - 1; j > 0 {
+			k = j // a segment of 8n+7 septets: the case with a fill septet
+		}
+		run := append([]byte(nil), s...)
+		var p1, p2 []byte
+		if !try1(c, "Pack", s, func() { p1 = g7.Pack(run[:k]); p2 = g7.Pack(run[k:]) }) {
+			return
+		}
+		if !bytes.Equal(p1, ref.Pack(s[:k])) || !bytes.Equal(p2, ref.Pack(s[k:])) || !bytes.Equal(run, s) {
+			c.Failf("pack-segments-of-one-run", "septets %s packed as segments [:%d] and [%d:] of one array: %s and %s, alone they pack to %s and %s; the caller's array afterwards: %s",
+				hx(s), k, k, hx(p1), hx(p2), hx(ref.Pack(s[:k])), hx(ref.Pack(s[k:])), hx(run))
+			return
+		}
+	}
 	// Unpack(Pack(s)) == s up to the two end-of-message carve-outs
 	var un []byte
 	if !try1(c, "Unpack", packed, func() { un = g7.Unpack(append([]byte(nil), packed...)) }) {
@@ -232,6 +250,13 @@ func c08Reuse(c *fw.Case) {
 				s[i] = byte(r.Pick(0x00, 0x0d, 0x40, 0x7f, 0x20))
 			}
 		}
+		// characters of the extension table (two septets; the euro sign is three octets of UTF-8)
+		for i := 0; i+1 < l; i++ {
+			if r.Chance(1, 12) {
+				s[i], s[i+1] = 0x1b, byte(r.Pick(0x65, 0x65, 0x14, 0x28, 0x29, 0x2f, 0x3c, 0x3d, 0x3e, 0x40))
+				i++
+			}
+		}
 		if r.Chance(1, 40) {
 			// a source below 4096 octets whose text is above: the fixed buffers of transform.Writer / transform.Reader
 			l = r.Range(2049, 2600)
@@ -339,6 +364,32 @@ func c08Reuse(c *fw.Case) {
 				c.Failf("entrypoints-disagree/encoder-streams", "message %d (%s), text %q (%d octets of UTF-8), packed=%v: reference %s, String = (%s, %v), transform.Reader = (%s, %v)",
 					m, pat, text, len(text), packedMode == 1, hx(want), hx([]byte(encString)), e3, hx(encReader), e4)
 				return
+			}
+			// transform.Writer over the encoder, the text arriving in two pieces (every cut of a short text, some cuts of
+			// a long one: pieces end inside characters)
+			cuts := []int{r.Intn(len(text) + 1), r.Intn(len(text) + 1)}
+			if len(text) <= 24 {
+				cuts = cuts[:0]
+				for k := 0; k <= len(text); k++ {
+					cuts = append(cuts, k)
+				}
+			}
+			for _, k := range cuts {
+				var wb bytes.Buffer
+				var w1, w2, ce error
+				if !try1(c, "transform.Writer(Encoder)", []byte(text), func() {
+					w := transform.NewWriter(&wb, c08Live.enc[packedMode])
+					_, w1 = w.Write([]byte(text[:k]))
+					_, w2 = w.Write([]byte(text[k:]))
+					ce = w.Close()
+				}) {
+					return
+				}
+				if len(text) < 4096 && (w1 != nil || w2 != nil || ce != nil || !bytes.Equal(wb.Bytes(), want)) {
+					c.Failf("entrypoints-disagree/encoder-writer", "message %d (%s): transform.Writer over the encoder, text %q written as %d + %d octets, gives (%s, write errs %v / %v, close err %v), reference %s (packed=%v)",
+						m, pat, text, k, len(text)-k, hx(wb.Bytes()), w1, w2, ce, hx(want), packedMode == 1)
+					return
+				}
 			}
 			// the recycled-buffer idiom: transform.Append(t, buf[:0], src)
 			if cap(c08Live.scratch) < len(want)+8 {
